@@ -567,9 +567,14 @@ func (tree *Rtree) nearestNeighbors(k int, p geom.Point, n *node,
 			dists, nearest = insertNearest(k, dists, nearest, dist, e.obj)
 		}
 	} else {
+		// Branches are visited in order of increasing MINDIST. MINMAXDIST
+		// pruning is only valid when looking for a single neighbor, so here a
+		// branch is skipped only if it is farther than the current k-th nearest.
 		branches, branchDists := sortEntries(p, n.entries)
-		branches = pruneEntries(p, branches, branchDists)
-		for _, e := range branches {
+		for i, e := range branches {
+			if k > 0 && math.Sqrt(branchDists[i]) > dists[k-1] {
+				break
+			}
 			nearest, dists = tree.nearestNeighbors(k, p, e.child, dists, nearest)
 		}
 	}
